@@ -19,8 +19,11 @@ package cmds
 //@        (inTargets(matchingTargets, targetsOf(nodes)[i]) <==> (exists j int :: 0 <= j && j < len(targetsOf(nodes)[i].Inputs) && inStrs(args, pathJoin(config.Global.WorkspaceRoot, pathJoin(targetsOf(nodes)[i].Label.Package, targetsOf(nodes)[i].Inputs[j])))))) &&
 //@        (forall x *model.Target :: {inTargets(matchingTargets, x)} inTargets(matchingTargets, x) ==> inTargets(targetsOf(nodes), x)) &&
 //@        (forall q int :: {matchingLabels[q]} 0 <= q && q < len(matchingTargets) ==> len(matchingLabels) == len(matchingTargets) && matchingLabels[q] == matchingTargets[q].Label)
+//@   before_call PrintSorted#1 [arguments_compared_as_given] forall k int :: {args[k]} 0 <= k && k < len(args) ==> args[k] == absPathOf(old(args[k]))
 //@ loop #1
-//@   invariant [same_length] len(args) == len(ranged())
+//@   invariant [same_length] len(args) == len(ranged()) && len(args) == old(len(args))
+//@   invariant [made_absolute_so_far] (forall k int :: {args[k]} 0 <= k && k <= rangeindex ==> args[k] == absPathOf(old(args[k]))) &&
+//@        (forall k int :: {args[k]} rangeindex < k && k < len(args) ==> args[k] == old(args[k]))
 //@ loop #2
 //@   invariant [same_list] ranged() == targetsOf(nodes)
 //@   invariant [decided_so_far] (forall i int :: {targetsOf(nodes)[i]} 0 <= i && i <= rangeindex ==>
